@@ -969,9 +969,15 @@ LOOKUP_REPLAY = """
 from measured import Length, Unit
 B = Length.unit('c19 symbol owner', 'c19key')          # the text is B's symbol ...
 A = Length.unit('c19key', 'c19 other symbol'.replace(' ', '-'))   # ... and A's name
-got_named = Unit.named('c19key')
-got_symbol = Unit.resolve_symbol('c19key')
-print('named ->', got_named.names, ' resolve_symbol ->', got_symbol.names)
+def look(f, text):
+    try:
+        return f(text)
+    except KeyError as e:
+        print(f.__name__, 'raises KeyError', e)
+        return None
+got_named = look(Unit.named, 'c19key')
+got_symbol = look(Unit.resolve_symbol, 'c19key')
+print('named ->', got_named and got_named.names, ' resolve_symbol ->', got_symbol and got_symbol.names)
 if got_named is not A or got_symbol is not B:
     print('REPRODUCED: a lookup by name (or symbol) answered from the other registry'); sys.exit(1)
 sys.exit(0)
@@ -987,77 +993,79 @@ def lookup_faithfulness(rep: report.Report) -> None:
 
     A = Length.unit("c19 lookup name owner", "c19lno")
     B = Length.unit("c19 lookup symbol owner", "c19lso")
-    key = "c19lookupkey"
+    # the second text is no fixed point of the usual text transforms (Unicode normalisation, case
+    # folding): a lookup that rewrites its argument asks the registries about another key
+    for key in ("c19lookupkey", "C19\u212bLookup\u2126Key"):
 
-    class Sym(dict):
-        def __init__(self, real: Dict[str, Any], tag: str, owner: Any) -> None:
-            dict.__init__(self, real)
-            self.tag, self.owner = tag, owner
+        class Sym(dict):
+            def __init__(self, real: Dict[str, Any], tag: str, owner: Any) -> None:
+                dict.__init__(self, real)
+                self.tag, self.owner = tag, owner
 
-        def _present(self) -> bool:
-            return ctx().decide(z3.Bool(f"{self.tag}[{key!r}] present"))
+            def _present(self) -> bool:
+                return ctx().decide(z3.Bool(f"{self.tag}[{key!r}] present"))
 
-        def __contains__(self, k: Any) -> bool:
-            return self._present() if k == key else dict.__contains__(self, k)
+            def __contains__(self, k: Any) -> bool:
+                return self._present() if k == key else dict.__contains__(self, k)
 
-        def __getitem__(self, k: Any) -> Any:
-            if k == key:
-                if self._present():
-                    return self.owner
-                raise KeyError(k)
-            return dict.__getitem__(self, k)
+            def __getitem__(self, k: Any) -> Any:
+                if k == key:
+                    if self._present():
+                        return self.owner
+                    raise KeyError(k)
+                return dict.__getitem__(self, k)
 
-        def get(self, k: Any, default: Any = None) -> Any:
-            if k == key:
-                return self.owner if self._present() else default
-            return dict.get(self, k, default)
+            def get(self, k: Any, default: Any = None) -> Any:
+                if k == key:
+                    return self.owner if self._present() else default
+                return dict.get(self, k, default)
 
-    for which in ("named", "resolve_symbol"):
-        def fn() -> Any:
-            saved = (Unit._by_name, Unit._by_symbol)
-            Unit._by_name, Unit._by_symbol = Sym(saved[0], "_by_name", A), Sym(saved[1], "_by_symbol", B)
-            try:
+        for which in ("named", "resolve_symbol"):
+            def fn() -> Any:
+                saved = (Unit._by_name, Unit._by_symbol)
+                Unit._by_name, Unit._by_symbol = Sym(saved[0], "_by_name", A), Sym(saved[1], "_by_symbol", B)
                 try:
-                    r = getattr(Unit, which)(key)
-                    out = "A" if r is A else ("B" if r is B else f"another object ({r!r})"[:60])
-                except KeyError:
-                    out = "KeyError"
-                # a lookup that never asked one of the registries must still be right for either state of it
-                ctx().decide(z3.Bool(f"_by_name[{key!r}] present"))
-                ctx().decide(z3.Bool(f"_by_symbol[{key!r}] present"))
-                return out
-            finally:
-                Unit._by_name, Unit._by_symbol = saved
+                    try:
+                        r = getattr(Unit, which)(key)
+                        out = "A" if r is A else ("B" if r is B else f"another object ({r!r})"[:60])
+                    except KeyError:
+                        out = "KeyError"
+                    # a lookup that never asked one of the registries must still be right for either state of it
+                    ctx().decide(z3.Bool(f"_by_name[{key!r}] present"))
+                    ctx().decide(z3.Bool(f"_by_symbol[{key!r}] present"))
+                    return out
+                finally:
+                    Unit._by_name, Unit._by_symbol = saved
 
-        ex = explore(fn, max_paths=16)
-        rep.merge_stats(queries=ex.queries, solver_s=ex.solver_s, paths=len(ex.paths))
-        np_, sp_ = z3.Bool(f"_by_name[{key!r}] present"), z3.Bool(f"_by_symbol[{key!r}] present")
-        P = symnum.Prover()
-        for i, p in enumerate(ex.paths):
-            k = ("lookup", which, i)
-            if p.exc is not None:
-                rep.ob("unknown", f"Unit.{which}#p{i}: {p.outcome}", k)
-                continue
-            # what the answer must be on this path, from the registry the lookup is about
-            name_in = P.check(p.cond, z3.Not(np_))[0] == "unsat"
-            name_out = P.check(p.cond, np_)[0] == "unsat"
-            sym_in = P.check(p.cond, z3.Not(sp_))[0] == "unsat"
-            sym_out = P.check(p.cond, sp_)[0] == "unsat"
-            if which == "named":
-                want = "A" if name_in else ("KeyError" if name_out else None)
-            else:
-                # exact symbols first; a text that is no symbol may still be a name (documented fallback)
-                want = "B" if sym_in else (("A" if name_in else ("KeyError" if name_out else None)) if sym_out else None)
-            ok = want is None or p.result == want
-            rep.ob("unsat" if ok else "sat", f"Unit.{which}({key!r}) with name {'bound' if name_in else 'unbound' if name_out else 'either'}, "
-                   f"symbol {'bound' if sym_in else 'unbound' if sym_out else 'either'}: answers {p.result}", k)
-            if not ok:
-                rep.violation(f"C19:lookup:Unit.{which}",
-                              f"Unit.{which}(text) answers {p.result} where the registry it looks in gives {want} "
-                              f"(name {'bound' if name_in else 'unbound'}, symbol {'bound' if sym_in else 'unbound'}): "
-                              f"names and symbols are not kept apart", families.REPLAY_IMPORTS + LOOKUP_REPLAY,
-                              soft=True)    # e.g. a memoised lookup answers for the model's registries what it would not for the real ones
-                break
+            ex = explore(fn, max_paths=16)
+            rep.merge_stats(queries=ex.queries, solver_s=ex.solver_s, paths=len(ex.paths))
+            np_, sp_ = z3.Bool(f"_by_name[{key!r}] present"), z3.Bool(f"_by_symbol[{key!r}] present")
+            P = symnum.Prover()
+            for i, p in enumerate(ex.paths):
+                k = ("lookup", which, i)
+                if p.exc is not None:
+                    rep.ob("unknown", f"Unit.{which}#p{i}: {p.outcome}", k)
+                    continue
+                # what the answer must be on this path, from the registry the lookup is about
+                name_in = P.check(p.cond, z3.Not(np_))[0] == "unsat"
+                name_out = P.check(p.cond, np_)[0] == "unsat"
+                sym_in = P.check(p.cond, z3.Not(sp_))[0] == "unsat"
+                sym_out = P.check(p.cond, sp_)[0] == "unsat"
+                if which == "named":
+                    want = "A" if name_in else ("KeyError" if name_out else None)
+                else:
+                    # exact symbols first; a text that is no symbol may still be a name (documented fallback)
+                    want = "B" if sym_in else (("A" if name_in else ("KeyError" if name_out else None)) if sym_out else None)
+                ok = want is None or p.result == want
+                rep.ob("unsat" if ok else "sat", f"Unit.{which}({key!r}) with name {'bound' if name_in else 'unbound' if name_out else 'either'}, "
+                       f"symbol {'bound' if sym_in else 'unbound' if sym_out else 'either'}: answers {p.result}", k)
+                if not ok:
+                    rep.violation(f"C19:lookup:Unit.{which}" + ("" if key == "c19lookupkey" else ":text-rewritten"),
+                                  f"Unit.{which}(text) answers {p.result} where the registry it looks in gives {want} "
+                                  f"(name {'bound' if name_in else 'unbound'}, symbol {'bound' if sym_in else 'unbound'}): "
+                                  f"names and symbols are not kept apart", families.REPLAY_IMPORTS + LOOKUP_REPLAY.replace('c19key', key if key != 'c19lookupkey' else 'c19key'),
+                                  soft=True)    # e.g. a memoised lookup answers for the model's registries what it would not for the real ones
+                    break
     rep.functions.update(["measured.Unit.named", "measured.Unit.resolve_symbol"])
 
 
